@@ -493,6 +493,50 @@ func c12Post(c *CheckRun) {
 	if len(labels) > 0 {
 		c.confirmRaces(labels, raceInst, total)
 	}
+	// fallback when the encoder could not follow some call: the call pairs themselves run natively
+	// (two goroutines from a cold process, -race build), a reduced claim stated in the evidence
+	ninc := 0
+	for _, inst := range c.Insts {
+		if inst.Inconclusive() {
+			ninc++
+		}
+	}
+	if ninc > 0 && len(c.Violations) == 0 {
+		c.nativeRaceSweep()
+	}
+}
+
+func (c *CheckRun) nativeRaceSweep() {
+	rp := NewReplayer(c.TmpDir + "/sweep")
+	osMkdirAll(c.TmpDir + "/sweep")
+	rp.race = true
+	runs, found := 0, 0
+	nops := int64(len(c12OpNames))
+	for _, lp := range [][2]int64{{2, 2}, {5, 5}, {0, 1}, {3, 3}} {
+		for a := int64(0); a < nops; a++ {
+			for b := a; b < nops; b++ {
+				vec := &Vector{Harness: "H_C12_race", Args: []int64{a, lp[0], b, lp[1], 0}, Vals: map[string]interface{}{"goldenlang": int(lp[0])}, Property: "C12", Label: "data-race", Kind: "race"}
+				raced, failures, out, err := rp.RunRace(vec, 3)
+				runs++
+				if err != nil {
+					c.Inconcl = append(c.Inconcl, "native race sweep: "+err.Error())
+					return
+				}
+				if raced || len(failures) > 0 {
+					found++
+					if found <= 4 {
+						path := fmt.Sprintf("%s/replays/C12-sweep%d.json", evidenceDir(), found)
+						osMkdirAll(evidenceDir() + "/replays")
+						vec.Note = fmt.Sprintf("found by the native fallback sweep after the encoding was inconclusive: %s(%s) || %s(%s); race_detector=%v failures=%v; %s",
+							c12OpNames[a], langNames[lp[0]], c12OpNames[b], langNames[lp[1]], raced, failures, firstLines(out, 8))
+						writeJSON(path, vec)
+						c.Violations = append(c.Violations, path)
+					}
+				}
+			}
+		}
+	}
+	c.Extra["native_race_sweep_pairs"] = runs
 }
 
 func (c *CheckRun) confirmRaces(labels []string, raceInst map[string]*Instance, total *raceResult) {
